@@ -28,6 +28,21 @@ func quietLogs() {
 	restful.EnableTracing(false)
 }
 
+// setTracing switches trace logging the way applications do: with EnableTracing, or by handing TraceLogger a logger / nil
+// ("TraceLogger(nil)" is the documented way to switch it off).
+func setTracing(on bool, style int) {
+	if style%2 == 0 {
+		restful.TraceLogger(tap)
+		restful.EnableTracing(on)
+		return
+	}
+	if on {
+		restful.TraceLogger(tap)
+	} else {
+		restful.TraceLogger(nil)
+	}
+}
+
 func routerOf(i int) string {
 	if i%2 == 1 {
 		return "jsr311"
@@ -480,7 +495,7 @@ func oddTemplates(ctx *core.Ctx, ti int, router string) {
 	c.Add(ws)
 	for _, path := range []string{"/odd/abc", "/odd/abc:c++", "/odd/x:a(b", "/odd/q:[", "/odd/ab:v2", "/odd/lit:1+1", "/odd/z:*", "/odd/a/7:c++/b", "/odd/q:\\", "/odd/:c++", "/odd/c", "/odd/abc:c+"} {
 		for _, tr := range []bool{false, true} {
-			restful.EnableTracing(tr)
+			setTracing(tr, ti/2)
 			n = 0
 			req := rt.Req{Method: "GET", Path: path}
 			out := rt.Run(c, rt.Dispatch, &req)
